@@ -83,6 +83,7 @@ class Config:
         sigs.append('%d %s' % (JUMP, jargs)); intr.append('%d Jmp()' % JUMP)
         sigs.append('%d S%s' % (COUNT_JUMP, jargs)); intr.append('%d CountJmp(%s)' % (COUNT_JUMP, 'op=">"' if self.count_gt else ''))
         sigs += ['%d' % ANTI_SCRATCH, '%d' % NOP, '100', '101']
+        sigs.append('3 S'); intr.append('3 Interrupt()')
         op = [200]
         def add(sig, text):
             sigs.append('%d %s' % (op[0], sig)); intr.append('%d %s' % (op[0], text)); op[0] += 1
